@@ -561,8 +561,15 @@ pub fn without_comments(t: &str) -> String {
             while j + 1 < b.len() && !(b[j] == '*' && b[j + 1] == '/') {
                 j += 1;
             }
-            i = if j + 1 < b.len() { j + 2 } else { b.len() };
-            out.push(' ');
+            let end = if j + 1 < b.len() { j + 2 } else { b.len() };
+            // the line structure is kept: a comment that spans lines is replaced by its line breaks
+            let nl: String = b[i..end].iter().filter(|c| **c == '\n').collect();
+            i = end;
+            if nl.is_empty() {
+                out.push(' ');
+            } else {
+                out.push_str(&nl);
+            }
         } else if b[i] == '/' && i + 1 < b.len() && b[i + 1] == '/' {
             while i < b.len() && b[i] != '\n' {
                 i += 1;
